@@ -4,7 +4,7 @@ import importlib
 
 class Spec:
     def __init__(self, prop, monitor_names, quick, thorough, rule, assumptions=(), overrides=None,
-                 budget=(150, 1500), avoid=()):
+                 budget=(150, 1500), avoid=(), no_avoid=False):
         self.prop = prop
         self.monitor_names = monitor_names
         self.quick = quick
@@ -14,6 +14,7 @@ class Spec:
         self._overrides = overrides or {}
         self._budget = budget
         self.avoid = set(avoid)
+        self.no_avoid = no_avoid        # oracle is robust against the open findings: every other run avoids nothing
 
     def monitors(self):
         out = []
@@ -32,6 +33,8 @@ class Spec:
         av = set(opts.get('avoid_all', ()))
         if (sd >> 5) % 10 == 0:
             av -= set(opts.get('avoid_own', ()))
+        if self.no_avoid and (sd >> 9) % 2 == 0:
+            av = set() if self.no_avoid is True else av - set(self.no_avoid)
         return av
 
     def plan(self, tier):
@@ -101,6 +104,7 @@ reg(Spec('C19', ['c19:C19'],
 reg(Spec('C26', ['c26:C26'],
          quick=[('DUPLEX', 1200), ('CORRUPT', 1200), ('ADV', 1200)],
          thorough=[('DUPLEX', 20000), ('CORRUPT', 20000), ('ADV', 20000)],
+         overrides={'*': {'ops_boost': {'ping': 4}, 'ping_burst': 0.15, 'adv_ping_flood': 0.08}},
          rule=R_RUN + 'non-trivial = several PINGs in one receive_data call, or PINGs on a faulted direction' + R_DISTINCT))
 reg(Spec('C29', ['c29:C29'],
          quick=[('MISUSE', 2500), ('RACE', 500)],
@@ -143,6 +147,7 @@ reg(Spec('C08', ['c08:C08'],
 reg(Spec('C09', ['c09:C09'],
          quick=[('DUPLEX', 1200), ('RACE', 800), ('ADV', 2000), ('MISUSE', 600)],
          thorough=[('DUPLEX', 30000), ('RACE', 20000), ('ADV', 50000), ('MISUSE', 15000)],
+         overrides={'*': {'top_ids': 0.08}},
          rule=R_RUN + 'non-trivial = an id at a boundary / a skipped id was used, a header call failed, or a peer frame addressed an idle, skipped or closed id' + R_DISTINCT))
 reg(Spec('C10', ['c10:C10'],
          quick=[('RACE', 2500), ('DUPLEX', 1000), ('ADV', 2500)],
@@ -157,8 +162,10 @@ reg(Spec('C22', ['c22:C22'],
          overrides={'*': {'push': 0.2, 'settings_bias': {2: [0, 0, 1]}, 'at_limit_attempts': 0.4, 'ops_boost': {'push': 6, 'settings': 2}}},
          rule=R_RUN + 'non-trivial = a push met a disabled ENABLE_PUSH (either side) or a closed parent' + R_DISTINCT))
 reg(Spec('C23', ['c23:C23'],
-         quick=[('DUPLEX', 1500), ('ADV', 2000), ('MISUSE', 500)],
-         thorough=[('DUPLEX', 30000), ('ADV', 50000), ('MISUSE', 10000)],
+         quick=[('DUPLEX', 1500), ('ADV', 2000), ('MISUSE', 500), ('HDR', 800)],
+         thorough=[('DUPLEX', 30000), ('ADV', 50000), ('MISUSE', 10000), ('HDR', 20000)],
+         overrides={'*': {'prio_open': 0.5, 'ops_boost': {'prio': 3}}, 'HDR': {'prio_open': 0.6, 'big_headers': 0.4, 'config_matrix': 0.0},
+                    'ADV': {'prio_open': 0.5, 'big_headers': 0.2}},
          rule=R_RUN + 'non-trivial = invalid priority arguments, a self-dependency, or PRIORITY on an idle/closed stream' + R_DISTINCT))
 reg(Spec('C24', ['c24:C24'],
          quick=[('DUPLEX', 1500), ('RACE', 800), ('ADV', 2000), ('MISUSE', 500)],
@@ -187,10 +194,10 @@ reg(Spec('C15', ['c15:C15'],
 reg(Spec('C16', ['c16:C16'],
          quick=[('HDR', 2500), ('DUPLEX', 1500), ('ADV', 1500)],
          thorough=[('HDR', 60000), ('DUPLEX', 40000), ('ADV', 40000)],
-         overrides={'*': {'cl': 0.5, 'cl_lie': 0.3, 'matrix_outbound': False, 'small_backlog': False}},
+         overrides={'*': {'cl': 0.5, 'cl_lie': 0.3, 'matrix_outbound': False, 'small_backlog': False, 'head_bias': 0.3}},
          rule=R_RUN + 'non-trivial = a message with END_STREAM on HEADERS or on trailers was delivered (placements other than the last DATA)' + R_DISTINCT))
 
-reg(Spec('C20', ['c20:C20'],
+reg(Spec('C20', ['c20:C20', 'c20:C20Credit'],
          quick=[('RACE', 4000), ('DUPLEX', 1000)],
          thorough=[('RACE', 100000), ('DUPLEX', 20000), ('FLOW', 10000)],
          overrides={'*': {'ops_boost': {'race': 6, 'push': 3, 'gc': 2}, 'stall': 0.1, 'misuse': 0.03, 'no_manual_winc': True,
@@ -214,7 +221,7 @@ reg(Spec('C28', [],
               'non-trivial = more than 10 steps; distinct = distinct abstract traces',
          budget=(600, 3000)))
 
-reg(Spec('C25', ['c25:C25', 'c25:C25E2E'],
+reg(Spec('C25', ['c25:C25', 'c25:C25E2E', 'c25:C25Flow'],
          quick=[('UPGRADE', 4000)],
          thorough=[('UPGRADE', 100000)],
          overrides={'*': {'matrix_outbound': False, 'small_closed': 0.0, 'small_backlog': False, 'big_windows': False, 'upgrade_full_space': 0.4,
@@ -232,3 +239,12 @@ reg(Spec('C27', ['c27:C27'],
          rule=R_RUN + 'LONG runs feed 4k-20k (quick) adversary frames that open, close, reset and reference streams to one real endpoint; '
               'non-trivial = an endpoint received at least 2000 frames; retained-table sizes are read after every step' + R_DISTINCT,
          assumptions=['table sizes are read from the attributes the property names (streams, _closed_streams, incoming_buffer); a missing attribute disables that measurement instead of alarming']))
+
+# Oracles that judge something the open findings cannot disturb (exception
+# classes, emitted wire format, twins, memory bounds ...): half of their runs
+# steer around nothing, so the findings' own trigger schedules are explored too.
+for _p in ('C17', 'C21', 'C19', 'C07', 'C02', 'C14'):
+    SPECS[_p].no_avoid = True
+# (a connection poisoned by a refused call - F-POISON - refuses valid frames too: oracles that demand acceptance keep
+# steering around that one)
+SPECS['C26'].no_avoid = ('F-ACK-INITIAL', 'F-DATA-BEFORE-HEADERS', 'F-COMMIT-BEFORE-VALIDATE')
